@@ -88,6 +88,40 @@ def Eik2.solveList (big : α) (e : Eik2 α) (srcs : List (α × α)) (nsweep : N
       (srcs.map fun s => (s.1 - e.oz, s.2 - e.ox)) nsweep grad).map
     fun outs => (srcs.zip outs).map fun so => mkTT2 e so.1 grad so.2
 
+structure Eik3 (α : Type) where
+  grid : Grid3 α
+  nzc : Nat
+  nxc : Nat
+  nyc : Nat
+  dz : α
+  dx : α
+  dy : α
+  oz : α
+  ox : α
+  oy : α
+
+/-- `TraveltimeGrid3D` -/
+structure TT3 (α : Type) where
+  grid : Grid3 α
+  dz : α
+  dx : α
+  dy : α
+  oz : α
+  ox : α
+  oy : α
+  source : α × α × α
+  gradient : Option (Grid3 (α × α × α))
+  vzero : α
+
+def mkTT3 (e : Eik3 α) (src : α × α × α) (grad : Bool) (o : Out3 α) : TT3 α :=
+  { grid := o.tt, dz := e.dz, dx := e.dx, dy := e.dy, oz := e.oz, ox := e.ox, oy := e.oy, source := src,
+    gradient := if grad then some o.grad else none, vzero := o.vzero }
+
+/-- `Eikonal3D.solve(source)` (single) -/
+def Eik3.solve (big : α) (e : Eik3 α) (src : α × α × α) (nsweep : Nat) (grad : Bool) : Except Err (TT3 α) :=
+  (fteik3d big (e.grid.map fun v => one / v) e.nzc e.nxc e.nyc e.dz e.dx e.dy
+      (src.1 - e.oz) (src.2.1 - e.ox) (src.2.2 - e.oy) nsweep grad).map (mkTT3 e src grad)
+
 /-- node axis `origin + gridsize * arange(n)` -/
 def axisOf (o d : α) (n : Nat) : Array α := (Array.range n).map fun (k : Nat) => o + d * ofInt (Int.ofNat k)
 
